@@ -347,12 +347,17 @@ def run(ctx):
     ctx.rule("C01-R2", "a connection refused by the queue (Full / closed pool) is closed", "E4")
     ctx.rule("C01-R3", "a connection is created without a slot only when block is false", "E4")
     classes = [f"{CP}.HTTPConnectionPool", f"{CP}.HTTPSConnectionPool"]
-    if ctx.tier == "thorough":
-        for c in m.subclasses(f"{CP}.HTTPConnectionPool"):
-            if c not in classes:
-                classes.append(c)
     for cls in classes:
         run_lease(ctx, cls)
     from . import c01_more
 
     c01_more.run(ctx)
+
+
+def run_thorough(ctx):
+    """Thorough tier: the lease automaton for every other concrete pool class in the package (SOCKS pools, ...)."""
+    m = ctx.model
+    done = {f"{CP}.HTTPConnectionPool", f"{CP}.HTTPSConnectionPool"}
+    for c in m.subclasses(f"{CP}.HTTPConnectionPool"):
+        if c not in done:
+            run_lease(ctx, c)
